@@ -377,8 +377,23 @@ func oracleC15(r *Rng, n int, thorough bool, seeds []string) *OracleResult {
 				before = showPkt4(c.in)
 			}
 			base := c.call(nil)
+			baseShown := ""
+			if base != nil {
+				baseShown = showPkt4(base)
+			}
 			fs = append(fs, checkDefaults(c, base)...)
 			full := c.call(c.mods())
+			// a built packet is the caller's: other packets built afterwards - with other
+			// parameter request lists, addresses, options - leave it as it was (seeded
+			// change C15-13: a pooled scratch buffer behind the stored request list)
+			if base != nil {
+				hw := net.HardwareAddr{2, 0, 0, 9, 9, 9}
+				dhcpv4.NewInform(hw, net.IP{10, 9, 9, 9}, dhcpv4.WithRequestedOptions(dhcpv4.OptionNTPServers, dhcpv4.OptionHostName, dhcpv4.OptionTimeOffset))
+				dhcpv4.NewInform(hw, net.IP{10, 9, 9, 8}, dhcpv4.WithRequestedOptions(dhcpv4.OptionBootfileName, dhcpv4.OptionTFTPServerName, dhcpv4.OptionNetBIOSOverTCPIPNameServer, dhcpv4.OptionRootPath, dhcpv4.OptionInterfaceMTU))
+				if now := showPkt4(base); now != baseShown {
+					fs = append(fs, clauseFail{"built-packet-changed-later", "the built packet was " + baseShown + " and is " + now + " after two unrelated packets were built"})
+				}
+			}
 			// building from a packet leaves that packet alone: a second packet built
 			// from the same input equals the first (seeded change C15-6: WithHwAddr
 			// writing into the buffer WithReply shares with the request)
